@@ -67,7 +67,8 @@ PROPS["C01"] = dict(
                  "leaf timestamps equal the tree head timestamp of the round that sequenced them (what the code does), used to predict roots"],
     technique="stateful property-based testing over a fault-injecting storage/lock simulator with an independent RFC 6962 model",
     units=[
-        sim("^TestVerifC01History$", 300, 1500, files=["sim*.go", "c01*.go"]),
+        sim("^TestVerifC01History$", 300, 1500, files=["sim*.go", "c01*.go", "c03_crash.go"]),
+        sim("^TestVerifC01FaultSweep$", 4, 40, qs=2, files=["sim*.go", "c01*.go", "c03_crash.go"]),
     ],
 )
 
